@@ -23,8 +23,45 @@ def expected_values(op):
     return [value_of(i) for i in range(m)]
 
 
+def spec_sizes(n_tasks, chunk_size, n_splits, n_jobs, default_div=64):
+    """chunk sizes by the documented rule, written out independently of /repo: an explicit chunk size c is used as it is (a real
+    c by the running recurrence ceil / carry), otherwise n_tasks / n_splits, otherwise n_tasks / (64 * n_jobs) (numpy pre-chunking:
+    4 * n_jobs; unknown length: 4); every chunk has at least one task"""
+    if chunk_size is None:
+        chunk_size = n_tasks / (n_splits or n_jobs * default_div)
+    sizes, cur, done = [], chunk_size, 0
+    while done < n_tasks:
+        k = min(max(1, math.ceil(cur)), n_tasks - done)
+        sizes.append(k)
+        done += k
+        cur = (cur + chunk_size) - math.ceil(cur)
+    return sizes
+
+
 def ref_chunks(op, n_jobs):
-    """the reference chunking of this call (indices), computed with the reference functions of /repo"""
+    """the reference chunking of this call (task indices per chunk), by the documented rule — NOT computed with the code under test"""
+    m = op['n']
+    il = op.get('iterable_len')
+    n_tasks = m if il is None else min(il, m)
+    cs, ns = op.get('chunk_size'), op.get('n_splits')
+    if op.get('input') == 'nd':
+        # the array is cut into row blocks first (same rule); every block is one task, tasks are then handed out one per chunk
+        rows, k = [], 0
+        for sz in spec_sizes(n_tasks, cs, ns, n_jobs, default_div=4):
+            rows.append(list(range(k, k + sz)))
+            k += sz
+        return [[r[0]] for r in rows], rows
+    chunks, k = [], 0
+    if cs is None and op.get('input') == 'gen' and il is None:
+        cs = 4          # length unknown: documented fall-back
+    for sz in spec_sizes(n_tasks, cs, ns, n_jobs):
+        chunks.append(list(range(k, k + sz)))
+        k += sz
+    return chunks, None
+
+
+def repo_chunks(op, n_jobs):
+    """the same, computed with /repo's own parameter derivation and chunker (for cross-checking the two)"""
     from mpire.params import WorkerPoolParams, check_map_parameters
     from mpire.utils import chunk_tasks
     import warnings
@@ -40,7 +77,6 @@ def ref_chunks(op, n_jobs):
             import numpy as np
             it, il2, cs2, ns2 = apply_numpy_chunking(np.arange(m).reshape(m, 1), il, op.get('chunk_size'), op.get('n_splits'), n_jobs)
             rows = [[int(r[0]) for r in c[0]] for c in it]
-            # each array chunk is one task; tasks are then chunked again with chunk_size 1
             return [[r[0]] for r in rows], rows
         n_tasks, ma, cs, _, _ = check_map_parameters(pp, data if sized else iter(data), il, op.get('max_tasks_active'),
                                                     op.get('chunk_size'), op.get('n_splits'), None, False, None, None, None, None, None)
@@ -251,8 +287,9 @@ def check_op(sc, obs, opi, add):
         else:
             # tasks executed since the pool last started its workers
             start_op = opi
-            while start_op > 0 and sc['pool'].get('keep_alive') and obs['ops'][start_op - 1].get('outcome') == 'ok' \
-                    and sc['ops'][start_op - 1]['op'] in MAPS and _same_workers(sc, start_op):
+            # (workers are kept after a call with keep_alive, and after apply submissions in any case)
+            while start_op > 0 and obs['ops'][start_op - 1].get('outcome') == 'ok' and _same_workers(sc, start_op) and \
+                    ((sc['pool'].get('keep_alive') and sc['ops'][start_op - 1]['op'] in MAPS) or sc['ops'][start_op - 1]['op'] == 'apply_batch'):
                 start_op -= 1
             since = sum(1 for c in obs['calls'] if start_op <= c[0] <= opi and c[1] == 'task' and c[7] is not None)
             if len(ins['n_completed_tasks']) != n_jobs:
@@ -371,6 +408,13 @@ def check_apply_op(sc, obs, opi, add):
             add('C09', 'callback_kind_matches', {'task': i, 'callback': cbs[i][0], 'expected': want})
     if o.get('outcome') != 'ok':
         add('C09', 'failure_does_not_stop_pool', {'exc': o.get('exc')})
+    if op.get('want_insights') and sc['pool'].get('enable_insights') and opi == 0:
+        ins = o.get('insights')
+        done = sum(1 for a in o['apply'] if a[1] == 'ok')
+        if not isinstance(ins, dict) or 'n_completed_tasks' not in ins:
+            add('C18', 'insights_present', {'insights': str(ins)[:100], 'after': 'apply'})
+        elif sum(ins['n_completed_tasks']) != done or len(ins['n_completed_tasks']) != sc['pool'].get('n_jobs', 2):
+            add('C18', 'completed_sum', {'sum': sum(ins['n_completed_tasks']), 'apply_tasks_completed': done, 'entries': len(ins['n_completed_tasks'])})
 
 
 def _same_workers(sc, opi):
